@@ -359,15 +359,31 @@ def _polarity(ctx, node_cls):
             if node.id in local:
                 return local[node.id]
             return node
+    want = N.cmp_atom(
+        ast.parse('self.affinity_counters[%s.affinity.name]' % app,
+                  mode='eval').body, '<',
+        ast.parse('%s.affinity.limits[self.level]' % app,
+                  mode='eval').body)
+    graph = ctx.cfg(func)
+    nzl = N.Normaliser(env=K.func_env(func))
     for ret in rets:
         import copy
+        if isinstance(ret.value, ast.Constant) and \
+                isinstance(ret.value.value, bool):
+            # the answer spelled out: True only under count < limit, False
+            # only under its negation
+            goal = want if ret.value.value else N.negate(want)
+            node = [n for n in graph.nodes if n.kind == 'return' and
+                    n.ast is ret]
+            ok = bool(node) and K.guarded_by_atoms(
+                ctx, func, graph, node[0],
+                lambda a, g=goal: a.key == g.key, nzl, follow_exc=False)
+            ctx.ob('C04.2', func, ret, ok,
+                   'limit test is %s (%s only under %s)' % (
+                       N.show(want), ret.value.value, N.show(goal)))
+            continue
         expr = Sub().visit(copy.deepcopy(ret.value))
         atom = nz.atom(expr)
-        want = N.cmp_atom(
-            ast.parse('self.affinity_counters[%s.affinity.name]' % app,
-                      mode='eval').body, '<',
-            ast.parse('%s.affinity.limits[self.level]' % app,
-                      mode='eval').body)
         ctx.ob('C04.2', func, ret, atom == want,
                'limit test is %s (found %s)' % (N.show(want),
                                                N.show(atom)))
